@@ -36,8 +36,16 @@
 Module containing Fortran2008 Error_Stop_Stmt rule R856
 """
 
+import re
+
+from fparser.two import pattern_tools as pattern
 from fparser.two.Fortran2003 import Stop_Code
 from fparser.two.utils import StmtBase, WORDClsBase
+
+# The two keywords may be separated by any amount of white space.
+_ERROR_STOP = pattern.Pattern(
+    "<error-stop>", r"ERROR\s+STOP\b", flags=re.I, value="ERROR STOP"
+)
 
 
 class Error_Stop_Stmt(StmtBase, WORDClsBase):  # R856
@@ -65,4 +73,4 @@ class Error_Stop_Stmt(StmtBase, WORDClsBase):  # R856
             or NoneType
 
         """
-        return WORDClsBase.match("ERROR STOP", Stop_Code, string)
+        return WORDClsBase.match(_ERROR_STOP, Stop_Code, string)
